@@ -83,7 +83,11 @@ pub fn case(ctx: &Ctx, shard: usize, index: u64, rep: &mut Report) {
     let (src, _data, delivered) = CountRead::new(&all);
     // the source hands out at most `chunk` bytes per read call
     let chunk = *rng.pick(&[usize::MAX, usize::MAX, 1, 2, 3, 7, 64, 4096]);
-    let mut rd = H263Reader::from_source(src.with_chunk(chunk));
+    let interrupts = if rng.chance(1, 5) { 2 + rng.below(5) as usize } else { 0 };
+    if interrupts > 0 {
+        rep.count("sequences_over_an_interrupting_source");
+    }
+    let mut rd = H263Reader::from_source(src.with_chunk(chunk).with_interrupts(interrupts));
     rep.count(&format!("source_chunk={}", if chunk == usize::MAX { "unlimited".to_string() } else { chunk.to_string() }));
     let mut start = 0usize;
     let mut decoded = 0;
@@ -262,7 +266,7 @@ pub fn run(ctx: &Ctx) -> (Report, String) {
     if ctx.is_main() {
         let m = ctx.scale_pct;
         rep.require("sequences_completed", if ctx.tier == Tier::Thorough { 2_000_000 } else { 150_000 } * m / 100);
-        for k in ["mode=sorenson", "mode=standard", "end_phase=0", "end_phase=1", "end_phase=2", "end_phase=3", "end_phase=4", "end_phase=5", "end_phase=6", "end_phase=7", "kind=I", "kind=P", "kind=D", "bigram:II", "bigram:IP", "bigram:PI", "bigram:PP", "bigram:DP", "bigram:PD", "kind=T", "kind=U", "bigram:TP", "bigram:TI", "bigram:UU", "early_end_then_next_picture:standard", "early_end_phase0_then_next_picture:standard"] {
+        for k in ["mode=sorenson", "mode=standard", "end_phase=0", "end_phase=1", "end_phase=2", "end_phase=3", "end_phase=4", "end_phase=5", "end_phase=6", "end_phase=7", "kind=I", "kind=P", "kind=D", "bigram:II", "bigram:IP", "bigram:PI", "bigram:PP", "bigram:DP", "bigram:PD", "sequences_over_an_interrupting_source", "kind=T", "kind=U", "bigram:TP", "bigram:TI", "bigram:UU", "early_end_then_next_picture:standard", "early_end_phase0_then_next_picture:standard"] {
             rep.require(k, 100 * m / 100);
         }
     }
